@@ -215,6 +215,8 @@ type Obligation struct {
 	QueryFile string
 	Known     *KnownFinding
 	SmallFile string
+	FullFile  string
+	fullNames []string
 	valNames  []string
 	bv        bool
 }
